@@ -68,7 +68,7 @@ PROPS = {
                     {"name": "varsign_tz", "env": {"TZ": "UTC"}},
                     {"name": "varsign_race", "variant": "race", "gomaxprocs": "4", "env": {"GORACE": "halt_on_error=1"}, "nondeterministic": True, "replay_attempts": 20}],
         "level": "exploration",
-        "technique": "simulated clock (go1.26 testing/synctest bubble advanced to a seeded instant) x simulated process time zone (time.Local assignment and TZ environment), byte-exact layout oracle and independent CMS verification of the detached signature",
+        "technique": "simulated clock (go1.26 testing/synctest bubble advanced to a seeded instant) x simulated process time zone (time.Local assignment and TZ environment), byte-exact layout oracle and independent CMS verification of the detached signature; seeded interleaving of 2-3 signing callers at the signer/filesystem seams, plus free-running signers under the Go race detector",
         "design_ref": "DESIGN.md section 3 (C06), 2.3 (simclock)",
         "level_text": ("'The timestamp is the current time in UTC' is a statement about the clock and the process configuration, neither of which a test can vary. The engine owns both: "
                        "every run sets the fake clock to a seeded instant (2000-2049, mass on second/minute/hour/day/month/year/leap-day rollovers and DST windows) and the zone to one of 42 "
@@ -112,7 +112,7 @@ PROPS = {
     "C12": {
         "engines": [{"name": "varstore"}],
         "level": "exploration",
-        "technique": "seeded write/read histories on the real testfs store inside a synctest bubble, step-by-step register reference model plus porcupine over the recorded history; worker process as crash observer",
+        "technique": "seeded write/read histories on the real testfs store inside a synctest bubble, step-by-step register reference model plus porcupine over the recorded history; seeded faults of the byte store underneath in a separate share of the runs (acknowledged writes must read back exactly); worker process as crash observer",
         "design_ref": "DESIGN.md section 3 (C12)",
         "level_text": ("Register semantics is a property of histories; the engine samples histories of 2-30 plain and signed writes and reads over 2-5 variables with a small "
                        "per-run value universe (values grow, shrink to empty and repeat), from empty and pre-populated stores, and compares every read with a per-variable "
